@@ -269,6 +269,11 @@ func runC03(c *Ctx) {
 	// ---------- O-4 load order ----------
 	c.checkHeapShape()
 
+	// ---------- O-7 a proxy leaves the pool it was put in (C04's deregistration obligations) ----------
+	c.prefix = "O-7/C04:"
+	c.checkDeregistration(p.Locks())
+	c.prefix = ""
+
 	// ---------- O-6 the legacy client format carries the NAT type too ----------
 	c.checkLegacyShim("O-6 legacy format hands the NAT header to the same handler")
 
